@@ -25,6 +25,9 @@ func c10Finder(run *Run, j *histJob) {
 		run.Fail("C10:panic", "the request worker panicked: "+r.Panicked, replay)
 		return
 	}
+	if newAfterTerminate(r) {
+		run.Fail("C10:attempt-after-terminate", "TerminateStream returned true, yet a retry (with its Retries reservation) was started afterwards", replay)
+	}
 	over := r.Done
 	if !over {
 		return // a hanging request is C03's finding; nothing is idle yet
